@@ -350,4 +350,17 @@ def poison():
     return P
 
 
-CORPUS = {"corpus_poison": poison, "corpus_tls": tls, "corpus_async": async_wake, "corpus_sem": sem, "corpus_sync_pb": sync_pb, "corpus_sync_big": sync_big, "corpus_deadlock": deadlock, "corpus_locks": locks, "corpus_sync": sync, "corpus_mpsc": mpsc}
+def isfin():
+    """JoinHandle::is_finished is a read of scheduler-visible state (kept apart from the generated families: it has no
+    scheduling point of its own, which is an open finding of C02)."""
+    P = []
+    P.append(prog(190, "corpus_isfin", [
+        [op("spawn_future", v=1), op("load", o=0), op("is_finished", v=1), op("bo_begin"), op("await_join", v=1), op("bo_end")],
+        [op("store", o=0, v=2)]], atomics=[0], kinds=["thread", "future"]))
+    P.append(prog(191, "corpus_isfin", [
+        [op("spawn_future", v=1), op("is_finished", v=1), op("yield"), op("is_finished", v=1), op("bo_begin"), op("await_join", v=1), op("bo_end"), op("is_finished", v=1)],
+        [op("ayield"), op("store", o=0, v=1)]], atomics=[0], kinds=["thread", "future"]))
+    return P
+
+
+CORPUS = {"corpus_isfin": isfin, "corpus_poison": poison, "corpus_tls": tls, "corpus_async": async_wake, "corpus_sem": sem, "corpus_sync_pb": sync_pb, "corpus_sync_big": sync_big, "corpus_deadlock": deadlock, "corpus_locks": locks, "corpus_sync": sync, "corpus_mpsc": mpsc}
